@@ -258,6 +258,14 @@ func ZZ_C16_whole() {
 	userFreq := ds.Spec.Strategy.ReconcileFrequency
 	defMode := ExtendedDaemonSetSpecStrategyCanaryValidationMode(nondet.String("defaultMode", "auto", "manual"))
 
+	// the reconcilers skip defaulting for an object recognised as defaulted and then dereference
+	// these fields: recognised implies complete (else "reconciliation ... never crash" is lost)
+	if IsDefaultedExtendedDaemonSet(ds) {
+		r := &ds.Spec.Strategy.RollingUpdate
+		nondet.Assert("C16.whole.recognised-means-complete", ds.Spec.Strategy.ReconcileFrequency != nil && ds.Spec.Template.Name == "" &&
+			r.MaxUnavailable != nil && r.MaxPodSchedulerFailure != nil && r.MaxParallelPodCreation != nil && r.SlowStartIntervalDuration != nil && r.SlowStartAdditiveIncrease != nil)
+		nondet.Reach("C16.whole.recognised-as-given", true)
+	}
 	d1 := DefaultExtendedDaemonSet(ds, defMode)
 	d2 := DefaultExtendedDaemonSet(d1, defMode)
 
